@@ -91,3 +91,19 @@ def removed_added(v: dict) -> tuple[list[str], list[str]]:
     prev = _lines(v.get("before"))
     cur = _lines(v.get("after"))
     return [s for s in prev if s not in cur], [s for s in cur if s not in prev]
+
+
+_MINMAX_DOM = re.compile(r"__dom___(?:min|max)(?:_\d+)+")
+
+
+@matcher("minmax_empty_domain")
+def minmax_empty_domain(job: dict, cres: dict, v: dict) -> bool:
+    """every failing instance leaves some emitted __dom___{min,max}_<n>_<line> predicate empty in the result
+    (the #inf/#sup rule of the chain encoding needs the least/greatest domain element to exist)"""
+    emitted = set(_MINMAX_DOM.findall(cres.get("result_text") or v.get("after") or ""))
+    if not emitted or "bad_aux" not in v:
+        return False
+    for _, present in v["bad_aux"]:
+        if not emitted - set(present):
+            return False
+    return True
